@@ -1290,9 +1290,9 @@ class DayTimeDuration(Duration):
 
     @classmethod
     def fromtimedelta(cls, td: datetime.timedelta) -> 'DayTimeDuration':
-        return cls(seconds=Decimal(
-            '{}.{:06}'.format(td.days * 86400 + td.seconds, td.microseconds)
-        ))
+        # The microseconds of a timedelta are always non-negative, also for negative deltas
+        return cls(seconds=Decimal(td.days * 86400 + td.seconds) +
+                   Decimal(td.microseconds) / 1000000)
 
     def __init__(self, seconds: Union[Decimal, int] = 0) -> None:
         """
